@@ -60,6 +60,8 @@ struct evws_connection {
 	struct evhttp *http_server;
 
 	struct evbuffer *incomplete_frames;
+	/* opcode of the first fragment in incomplete_frames */
+	unsigned char incomplete_opcode;
 	bool closed;
 };
 
@@ -334,6 +336,12 @@ ws_evhttp_read_cb(struct bufferevent *bufev, void *arg)
 			goto bailout;
 		}
 		header_sz = payload - data;
+		if (evws->incomplete_frames == NULL)
+			evws->incomplete_opcode = data[0] & 0x0F;
+		else if (type == 0 && evws->incomplete_opcode != 0)
+			/* final continuation frame: the message has the type of
+			 * its first fragment (RFC 6455, section 5.4) */
+			type = evws->incomplete_opcode;
 		evbuffer_drain(input, header_sz);
 		data = evbuffer_pullup(input, -1);
 
